@@ -335,3 +335,11 @@ case("C12", "cache-names-only-key", "VIOLATION", [(FI, "@numba.njit(cache=True)\
 case("C12", "cache-complete-key", "HOLDS", [(FI, "@numba.njit(cache=True)\ndef _fast_convert", "_MAPPING_CACHE = {}\n\n\n@numba.njit(cache=True)\ndef _fast_convert"), (FI, CACHE_OLD, "\tkey = motif_pwms.tobytes(), tuple(motif_lengths), bin_size, eps\n\tif key not in _MAPPING_CACHE:\n\t\t_MAPPING_CACHE[key] = _all_pwm_to_mapping(motif_pwms, motif_lengths, \n\t\t\tbin_size)\n\t_smallest, _score_to_pvals = _MAPPING_CACHE[key]\n")])
 case("C11", "dp-skip-flat-columns", "VIOLATION", [(FI, "\tfor i in range(1, l):\n\t\tfor j in range(largest - smallest + 1):\n\t\t\tlogpdf[j] = -numpy.inf\n", "\tfor i in range(1, l):\n\t\tif int_log_pwm[:, i].min() == int_log_pwm[:, i].max():\n\t\t\tcontinue\n\n\t\tfor j in range(largest - smallest + 1):\n\t\t\tlogpdf[j] = -numpy.inf\n")], "DP")
 case("C10", "ins-trim-per-insertion", "VIOLATION", [(V, "\t\t\tx = insert(x, v, start=j)\n\n\t\tif left == True:\n\t\t\tx = x[:, :, -X.shape[-1]:]\n\t\telse:\n\t\t\tx = x[:, :, :X.shape[-1]]\n", "\t\t\tx = insert(x, v, start=j)\n\n\t\t\tif left == True:\n\t\t\t\tx = x[:, :, -X.shape[-1]:]\n\t\t\telse:\n\t\t\t\tx = x[:, :, :X.shape[-1]]\n")], "R-SIB")
+case("C09", "raw-flag-inverted", "VIOLATION", [(I, "\tif raw_outputs == False:\n\t\tattr = _attribution_score", "\tif raw_outputs != False:\n\t\tattr = _attribution_score")], "MASK")
+case("C09", "neg-end-off-by-one", "VIOLATION", [(I, "end = end if end >= 0 else X.shape[-1] + 1 + end", "end = end if end >= 0 else X.shape[-1] + end")], "COUNT")
+case("C02", "shuffle-n-plus-one", "VIOLATION", [(E, "\tX_shufs = []\n\tfor i in range(n):\n\t\tidxs = numpy.arange(end-start)", "\tX_shufs = []\n\tfor i in range(n + 1):\n\t\tidxs = numpy.arange(end-start)")], "R-AXES", "ersatz.shuffle")
+case("C02", "shuffle-rejects-full-tail", "VIOLATION", [(E, "\tif end > X.shape[-1] or start < 0:\n\t\traise ValueError(\"Start or end are falling off the edge of X.\")\n\n\tif not isinstance(random_state, numpy.random.RandomState):\n\t\trandom_state = numpy.random.RandomState(random_state)\n\n\tX_shufs = []\n\tfor i in range(n):\n\t\tidxs", "\tif end >= X.shape[-1] or start < 0:\n\t\traise ValueError(\"Start or end are falling off the edge of X.\")\n\n\tif not isinstance(random_state, numpy.random.RandomState):\n\t\trandom_state = numpy.random.RandomState(random_state)\n\n\tX_shufs = []\n\tfor i in range(n):\n\t\tidxs")], "R-ACCEPT", "ersatz.shuffle")
+case("C02", "shuffle-neg-end-short", "VIOLATION", [(E, "\tif end < 0:\n\t\tend = X.shape[-1] + 1 + end\n\n\tif end <= start:\n\t\traise ValueError(\"End must come after start.\")\n\n\tif end > X.shape[-1] or start < 0:", "\tif end < 0:\n\t\tend = X.shape[-1] + end\n\n\tif end <= start:\n\t\traise ValueError(\"End must come after start.\")\n\n\tif end > X.shape[-1] or start < 0:")], "REGION", "ersatz.shuffle")
+case("C02", "dinuc-drops-last-example", "VIOLATION", [(E, "\tX_shufs = []\n\tfor i in range(X.shape[0]):\n\t\tinsert_ = _dinucleotide_shuffle", "\tX_shufs = []\n\tfor i in range(X.shape[0] - 1):\n\t\tinsert_ = _dinucleotide_shuffle")], "R-AXES", "ersatz.dinucleotide_shuffle")
+case("C02", "walk-stops-early", "VIOLATION", [(E, "\t\tfor j in range(1, len(idxs)):", "\t\tfor j in range(1, len(idxs) - 1):")], "WALK")
+case("C10", "del-mask-wrong-axes", "VIOLATION", [(V, "mask = torch.zeros_like(X[:, 0]).type(torch.int32)", "mask = torch.zeros_like(X[0, :]).type(torch.int32)")], "DEL")
